@@ -78,7 +78,9 @@ def gen_chunk(rng, dt, fl, quick):
             lo, hi = hi, lo
         if rng.chance(1, 4):
             hi = lo
-        if rng.chance(1, 6) and pd[2] not in ("bool", "ts96"):
+        if rng.chance(1, 8) and pd[2] not in ("bool", "ts96"):
+            lo, hi = 0, (1 << W) - 1          # the full-width range (k = W): what a writer storing raw numbers would use
+        elif rng.chance(1, 6) and pd[2] not in ("bool", "ts96"):
             j = rng.range(0, W)
             hi = min((1 << W) - 1, lo + max(0, (1 << j) + rng.choice([-2, -1, 0, 1])))
         rng_ = hi - lo
@@ -88,7 +90,7 @@ def gen_chunk(rng, dt, fl, quick):
             g = common
         else:
             g = 1
-            if rng_ > 0 and rng.chance(1, 2):
+            if rng_ > 0 and rng_ != (1 << W) - 1 and rng.chance(1, 2):
                 g = rng.range(1, max(1, min(rng_, 1 << 30)))
                 if not (g - 1 < rng_ and g - 1 < (1 << gb_float(rng_))):
                     g = 1
